@@ -106,6 +106,12 @@ def run(ctx):
             # names that spell columns/functions
             ents.append({"path": r.choice(["size", "bin", "name.hex", "lower.mode"]), "kind": "f", "size": 3, "mode": 0o644, "mtime": 1700000000})
             ents.append({"path": r.choice(["Name", "Extension", "Size", "Mode", "x.Extension", "Length(Name)"]), "kind": "f", "size": 4, "mode": 0o644, "mtime": 1700000000})
+            # names and extensions that read like integers in non-canonical spelling: text all the same (`name = '007'` is not `7`)
+            if r.chance(1, 2):
+                have = {e["path"] for e in ents}
+                for nm in r.sample(["007", "7", "01", "1", "+5", "5", "backup.001", "backup.1", "-3", "3", "00", "0"], r.range(4, 8)):
+                    if nm not in have:
+                        ents.append({"path": nm, "kind": "f", "size": r.choice([0, 1, 7]), "mode": 0o644, "mtime": 1700000000})
             snap = corr.Snap(scratch, ents, subdir="t%d" % t, tz="UTC")
             for _ in range(per_tree):
                 kind, col, op, lit, text = gen_atom(r, snap)
